@@ -50,6 +50,10 @@ EXPLICIT = [
     ["D", [[["s", "k"], ["L", [["s", "a"]]]]]], ["D", [[["s", "k"], ["L", [["y", "61"]]]]]], ["D", [[["s", "k"], ["T", [["s", "a"]]]]]],
     ["S", [["i", "1"], ["s", "a"], ["n"], ["y", "61"]]], ["F", [["i", "1"], ["s", "a"], ["n"], ["y", "61"]]],
     ["S", [["T", [["i", "1"], ["s", "a"]]], ["T", [["i", "1"], ["i", "2"]]], ["s", "x"]]],
+    # keys that are distinct objects with one and the same digest (every NaN is its own key): only the values tell the items apart
+    ["D", [[["f", "nan"], ["i", "1"]], [["f", "nan"], ["i", "2"]]]], ["D", [[["f", "nan"], ["i", "1"]], [["f", "nan"], ["i", "2"]], [["f", "nan"], ["i", "3"]], [["s", "k"], ["i", "0"]]]],
+    ["D", [[["T", [["f", "nan"], ["i", "0"]]], ["s", "p"]], [["T", [["f", "nan"], ["i", "0"]]], ["s", "q"]]]],
+    ["L", [["D", [[["s", "k"], ["D", [[["f", "nan"], ["i", "1"]], [["f", "nan"], ["i", "2"]]]]]]], ["i", "3"]]],
     # the same large payload twice in one value (shared vs distinct equal objects must hash alike)
     ["L", [["Z", "bytes", 1 << 20, 7], ["Z", "bytes", 1 << 20, 7]]],
     ["T", [["Z", "zeros", (1 << 20) + 17, 0], ["i", "1"], ["Z", "zeros", (1 << 20) + 17, 0]]],
